@@ -65,11 +65,15 @@ def refdiff(p):
     def body(a):
         items = list(a)
         real, ref = C.build(desc)
-        got = D.run_timed(items, real)
+        if p.get('retry') is not None:
+            # the same operator objects first serve a subscription aborted (rx-level error) after `retry` items
+            got = D.run_timed_after_abort(items, real, p['retry'])
+        else:
+            got = D.run_timed(items, real)
         exp = R.run(ref, items)
         if compare(got, exp, mode):
             return True
-        return fail(pipeline=C.show(desc), items=items, observed=got, expected=exp, mode=mode)
+        return fail(pipeline=C.show(desc), items=items, observed=got, expected=exp, mode=mode, aborted_first_subscription_after=p.get('retry'))
     return mk('refdiff', sig, pre, body)
 
 
